@@ -376,9 +376,14 @@ fn cmd_copy() -> i32 {
                     result = Err("copy() did not return".into());
                 }
             }
-            updates = recu.log.lock().unwrap().clone();
-            // for a client-supplied updater "the stream ends" = nobody holds the updater any more
+            // for a client-supplied updater "the stream ends" = nobody holds the updater any more; after an
+            // error copy() may return while workers are still winding down, so wait (bounded) for that
+            let t0 = std::time::Instant::now();
+            while Arc::strong_count(&recu) != 1 && t0.elapsed() < timeout {
+                std::thread::sleep(Duration::from_millis(1));
+            }
             closed = Arc::strong_count(&recu) == 1;
+            updates = recu.log.lock().unwrap().clone();
         }
     }
     println!("{}", json!({"ok": result.is_ok(), "error": result.err(), "returned": returned, "closed": closed, "updates": updates}));
